@@ -321,6 +321,11 @@ def run(ck):
     # evaluated on its own must be absent from the whole-file result)
     from props import engine_tracecheck
     engine_tracecheck.run(ck, 'c08', 1600 if quick else 16000)
+    # the same for views: random views files in which half of the global / a quarter of the view-local declarations cannot be
+    # evaluated; Views!MemberOf (a failing declaration is None for that merchant, a failing filter excludes just that merchant
+    # from just that view) must agree with the real listing
+    from props import c10
+    c10.trace_views(ck, 3200 if quick else 32000, p_fail=0.5)
     tmp = tempfile.mkdtemp(prefix='c08_')
     try:
         dump = os.path.join(tmp, 'ill.dump')
